@@ -320,8 +320,12 @@ def c17_b64(tier, seed):
                 "generated_id, prio/default tags; ge_polyhedron_config: matrix, variables, index, default_prio_vector and select() "
                 "with the same solver; non-trivial = distinct (kind, class of top node)")
     for m0, rng in _models(tier, seed + 41, n_quick=60, n_thorough=400, depth=3):
-        s = m0.to_b64()
-        m1 = pg.from_b64(s)
+        try:
+            s = m0.to_b64()
+            m1 = pg.from_b64(s)
+        except BaseException as e:
+            _viol(r, "c17.roundtrip-raises", {"model": m0.to_text()}, error=repr(e)[:200])
+            continue
         r["evaluations"] += 1
         r["_seen"].add(("model", type(m0).__name__))
         if _snapshot(m0) != _snapshot(m1) or m0.to_text() != m1.to_text() or type(m0) is not type(m1):
@@ -358,7 +362,11 @@ def c17_b64(tier, seed):
             if not same_cfg:
                 _viol(r, "c17.configurator-differs-after-roundtrip", {"config": cfg.to_json()})
         p0 = cfg.ge_polyhedron
-        p1 = pnd.ge_polyhedron_config.from_b64(p0.to_b64())
+        try:
+            p1 = pnd.ge_polyhedron_config.from_b64(p0.to_b64())
+        except BaseException as e:
+            _viol(r, "c17.roundtrip-raises", {"config": cfg.to_json()}, error=repr(e)[:200])
+            continue
         r["evaluations"] += 1
         r["_seen"].add(("config", k % 2))
         w = {"config": cfg.to_json()}
